@@ -300,6 +300,11 @@ theorem eraseDups_length_pos (vals : List Rat) (h : vals ≠ []) : 1 ≤ (vals.e
     rw [List.eraseDups_cons, List.length_cons]
     omega
 
+theorem map_getElem?_map_range {β γ} (f : Nat → β) (g : β → γ) (m i : Nat) (h : i < m) :
+    (((List.range m).map f)[i]?).map g = some (g (f i)) := by
+  rw [List.getElem?_map, List.getElem?_range h]
+  rfl
+
 theorem prob_ne_delta : ¬ ("prob" : String) = "delta" := by decide
 
 /-- Outside the single-value shortcut and in-domain, `ncompFromGmm` is `gmmTail` on an index inside
@@ -339,9 +344,7 @@ theorem ncompFromGmm_tail {α} (K : Kern) (P : PPrms α) (hK : KernOK K P.basePe
     refine ⟨_, hb, ?_, ?_⟩
     · unfold selectedFit
       simp only [hmode, if_true]
-      unfold Lay.gmmScaled at hb ⊢
-      rw [List.getElem?_map, List.getElem?_range hb]
-      rfl
+      exact map_getElem?_map_range _ _ _ _ hb
     · unfold ncompFromGmm
       rw [if_neg h1]
       simp only []
@@ -353,14 +356,105 @@ theorem ncompFromGmm_tail {α} (K : Kern) (P : PPrms α) (hK : KernOK K P.basePe
     refine ⟨_, hb, ?_, ?_⟩
     · unfold selectedFit
       simp only [if_neg hnd]
-      unfold Lay.gmmScaled at hb ⊢
-      rw [List.getElem?_map, List.getElem?_range hb]
-      rfl
+      exact map_getElem?_map_range _ _ _ _ hb
     · unfold ncompFromGmm
       rw [if_neg h1]
       simp only []
       rw [if_neg hsc, if_neg hnd, if_pos hmode]
       rfl
+
+theorem calcBase_error (pctl : List Rat → Rat → Rat) (vals : List Rat) (lb q : Rat) (e : AmpyErr)
+    (h : calcBase pctl vals lb q = .error e) : e = .ampy "Cloud base calculation got an empty array" := by
+  unfold calcBase at h
+  simp only at h
+  split at h
+  · cases h; rfl
+  · cases h
+
+theorem calcBase_ok (pctl : List Rat → Rat → Rat) (vals : List Rat) (lb q : Rat) (h : vals ≠ []) :
+    ∃ b, calcBase pctl vals lb q = .ok b := by
+  have hsel := latest_ne_nil vals lb h
+  have hlen : (latest vals lb).length ≠ 0 := fun h => hsel (List.length_eq_zero_iff.mp h)
+  unfold calcBase
+  simp only
+  rw [if_neg hlen]
+  exact ⟨_, rfl⟩
+
+theorem getElem?_map_range {β} (f : Nat → β) (m i : Nat) (h : i < m) :
+    ((List.range m).map f)[i]? = some (f i) := by
+  rw [List.getElem?_map, List.getElem?_range h]
+  rfl
+
+/-- Errors of the tail of `ncomp_from_gmm` on an index inside the list of fits. -/
+theorem gmmTail_error_kinds {α} (K : Kern) (P : PPrms α) (vals sc : List Rat) (m : Nat) (minSep : Rat)
+    (best : Nat) (hb : best < m) (e : AmpyErr)
+    (h : Lay.gmmTail K P vals minSep ((List.range m).map fun i => K.gmm P.gmmScores sc (i + 1)) best = .error e) :
+    e = .ampy "Cloud base calculation got an empty array" ∨ e = .other "AssertionError" := by
+  unfold Lay.gmmTail at h
+  rw [getElem?_map_range _ m best hb] at h
+  simp only at h
+  split_ifs at h with h1
+  · cases h
+  · simp only [bind, Except.bind, pure, Except.pure] at h
+    split at h
+    · rename_i e' he'
+      cases h
+      left
+      exact mapM_error_of _ (fun e => e = .ampy "Cloud base calculation got an empty array") _
+        (fun c _ e he => calcBase_error _ _ _ _ e he) _ he'
+    · rename_i bases _
+      generalize remerge minSep (applyPerm (K.argsort bases) bases) (K.argsort bases)
+        (K.gmm P.gmmScores sc (best + 1)).labels (best + 1) = rm at h
+      split_ifs at h
+      · cases h
+        right
+        rfl
+
+/-- The tail of `ncomp_from_gmm` returns when every component of the selected mixture is populated. -/
+theorem gmmTail_total {α} (K : Kern) (P : PPrms α) (hK : KernOK K P.basePerc) (vals sc : List Rat)
+    (hlen : sc.length = vals.length) (m : Nat) (minSep : Rat) (best : Nat) (hb : best < m)
+    (hpop : ∀ i, i < best + 1 → i ∈ (K.gmm P.gmmScores sc (best + 1)).labels) :
+    ∃ r, Lay.gmmTail K P vals minSep ((List.range m).map fun i => K.gmm P.gmmScores sc (i + 1)) best = .ok r := by
+  unfold Lay.gmmTail
+  rw [getElem?_map_range _ m best hb]
+  simp only
+  by_cases h1 : best + 1 = 1
+  · rw [if_pos h1]
+    exact ⟨_, rfl⟩
+  · rw [if_neg h1]
+    have hll : (K.gmm P.gmmScores sc (best + 1)).labels.length = vals.length := by
+      rw [hK.gmm_len, hlen]
+    obtain ⟨bases, hbases⟩ := mapM_ok_of_forall (fun i =>
+        calcBase K.pctl ((vals.zip (K.gmm P.gmmScores sc (best + 1)).labels).filterMap
+          fun (x : Rat × Nat) => if x.2 = i then some x.1 else none) P.lookback P.basePerc)
+      (List.range (best + 1)) (by
+        intro i hi
+        apply calcBase_ok
+        obtain ⟨j, hj, hji⟩ := List.mem_iff_getElem.mp (hpop i (List.mem_range.mp hi))
+        have hjv : j < vals.length := hll ▸ hj
+        apply List.ne_nil_of_mem (a := vals[j])
+        rw [List.mem_filterMap]
+        exact ⟨_, zip_getElem_mem vals _ j hjv hj, by simp [hji]⟩)
+    have hbl : bases.length = best + 1 := by
+      rw [Lay.mapM_ok_length _ _ _ hbases, List.length_range]
+    have hperm := hK.argsort_perm bases
+    have hsb : (applyPerm (K.argsort bases) bases).length = best + 1 := by
+      rw [(applyPerm_perm _ _ hperm).length_eq, hbl]
+    have hcount := remerge_count minSep (applyPerm (K.argsort bases) bases) (K.argsort bases)
+      (K.gmm P.gmmScores sc (best + 1)).labels (best + 1) (by omega) hsb
+      (by have := isPermOf_perm hperm; rwa [hbl] at this)
+      (fun x => ⟨hK.gmm_lt _ _ _ x, hpop x⟩)
+    simp only [bind, Except.bind, pure, Except.pure]
+    have hbases' : (List.range (best + 1)).mapM (fun i =>
+        calcBase K.pctl ((vals.zip (K.gmm P.gmmScores sc (best + 1)).labels).filterMap
+          fun (x : Rat × Nat) => match x with | (v, l) => if l = i then some v else none) P.lookback P.basePerc)
+        = .ok bases := hbases
+    rw [hbases']
+    simp only
+    generalize remerge minSep (applyPerm (K.argsort bases) bases) (K.argsort bases)
+        (K.gmm P.gmmScores sc (best + 1)).labels (best + 1) = rm at hcount
+    rw [if_neg (not_not.mpr hcount)]
+    exact ⟨_, rfl⟩
 
 /-- `ncomp_from_gmm` returns for at least two distinct values, `1 ≤ ncompMax`, in-domain parameters and
 a populated selection: neither `AmpycloudError` (unknown scores / mode, empty component) nor the `assert`
@@ -369,27 +463,336 @@ theorem ncompFromGmm_total {α} (K : Kern) (P : PPrms α) (hK : KernOK K P.baseP
     (hA3 : SelectedPopulated K P) (vals : List Rat) (ncompMax : Nat) (minSep : Rat)
     (hne : vals ≠ []) (hmax : 1 ≤ ncompMax) :
     ∃ r, ncompFromGmm K P vals ncompMax minSep = .ok r := by
-  sorry
+  by_cases h1 : (vals.eraseDups).length = 1
+  · unfold ncompFromGmm
+    rw [if_pos h1]
+    exact ⟨_, rfl⟩
+  · obtain ⟨best, hb, hsel, heq⟩ := ncompFromGmm_tail K P hK hP vals ncompMax minSep hne hmax h1
+    rw [heq]
+    exact gmmTail_total K P hK vals _ (Lay.gmmScaled_length P.gmmRescale vals) _ minSep best hb
+      (hA3 vals ncompMax _ _ hsel)
+
+/-- Without A3: the only failures of `ncomp_from_gmm` in-domain are the empty-component refusal of
+`calc_base_height` and the bare `assert`. -/
+theorem ncompFromGmm_error_kinds {α} (K : Kern) (P : PPrms α) (hK : KernOK K P.basePerc) (hP : PrmsOK P)
+    (vals : List Rat) (ncompMax : Nat) (minSep : Rat) (hne : vals ≠ []) (hmax : 1 ≤ ncompMax) (e : AmpyErr)
+    (h : ncompFromGmm K P vals ncompMax minSep = .error e) :
+    e = .ampy "Cloud base calculation got an empty array" ∨ e = .other "AssertionError" := by
+  by_cases h1 : (vals.eraseDups).length = 1
+  · unfold ncompFromGmm at h
+    rw [if_pos h1] at h
+    cases h
+  · obtain ⟨best, hb, _, heq⟩ := ncompFromGmm_tail K P hK hP vals ncompMax minSep hne hmax h1
+    rw [heq] at h
+    exact gmmTail_error_kinds K P vals _ _ minSep best hb e h
+
+/-! ### `find_slices` -/
+
+theorem applyScaling_total (vals : List (Option Rat)) (spec : ScaleSpec)
+    (h : match spec with
+      | .step st sc => st.length + 1 = sc.length ∧ sortedRat st = true
+      | _ => True) : ∃ out, applyScaling vals spec = .ok out := by
+  cases spec with
+  | none => exact ⟨_, rfl⟩
+  | shift s k =>
+    unfold applyScaling
+    simp only
+    split <;> exact ⟨_, rfl⟩
+  | minmax mr =>
+    unfold applyScaling
+    simp only
+    split <;> exact ⟨_, rfl⟩
+  | minmaxFixed lo hi =>
+    unfold applyScaling
+    simp only
+    split <;> exact ⟨_, rfl⟩
+  | step st sc =>
+    simp only at h
+    unfold applyScaling
+    simp only
+    split
+    · exact ⟨_, rfl⟩
+    · unfold stepScale isSortedRat
+      rw [if_neg (not_not.mpr h.1), h.2]
+      exact ⟨_, rfl⟩
+
+theorem scaledPoints_total {α} (data : List (Hit α)) (dtScale : Rat) (hSpec : ScaleSpec) (keep : List Bool)
+    (h : ∀ vals, ∃ out, applyScaling vals hSpec = .ok out) :
+    ∃ pts, scaledPoints data dtScale hSpec keep = .ok pts := by
+  obtain ⟨sdt, h1⟩ := applyScaling_total (dts data) (.shift none dtScale) trivial
+  obtain ⟨sh, h2⟩ := h (heights data)
+  unfold scaledPoints
+  simp only [bind, Except.bind, pure, Except.pure, h1, h2]
+  exact ⟨_, rfl⟩
 
 theorem sliceIds_total {α} (K : Kern) (P : PPrms α) (hP : PrmsOK P) (data : List (Hit α)) :
     ∃ sids, sliceIds K P data = .ok sids := by
-  sorry
+  unfold sliceIds
+  simp only [bind, Except.bind, pure, Except.pure]
+  split
+  · exact ⟨_, rfl⟩
+  · split
+    · obtain ⟨pts, hpts⟩ := scaledPoints_total data P.sliceDtScale P.sliceHScale (data.map fun _ => true)
+        (fun vals => applyScaling_total vals P.sliceHScale hP.hscale)
+      rw [hpts]
+      exact ⟨_, rfl⟩
+    · exact ⟨_, rfl⟩
+
+/-! ### `find_groups` -/
+
+theorem groupBundle_total {α} (K : Kern) (P : PPrms α) (data : List (Hit α)) (sids : List Int) (slices : Table)
+    (bundle : List Nat) (g : List (Option Int)) : ∃ g', groupBundle K P data sids slices bundle g = .ok g' := by
+  unfold groupBundle
+  simp only [bind, Except.bind, pure, Except.pure]
+  split
+  · rename_i e he
+    obtain ⟨pts, hpts⟩ := scaledPoints_total data P.grpDtScale
+      (.shift (some 0) (min P.hScaleHi (max P.hScaleLo
+        (minRat (bundle.filterMap fun i => (slices[i]?).map (·.fluff))))))
+      (sids.map ((bundle.filterMap fun i => (slices[i]?).map (·.cid)).contains ·))
+      (fun vals => applyScaling_total vals _ trivial)
+    rw [hpts] at he
+    cases he
+  · split <;> exact ⟨_, rfl⟩
+
+theorem groupBase_ok {α} [DecidableEq α] (K : Kern) (P : PPrms α) (hK : KernOK K P.basePerc) (hP : PrmsOK P)
+    (data : List (Hit α)) (gids : List Int) (cid : Int) (h : IdsOK data gids) (hc : cid ∈ clusterIds gids) :
+    ∃ b, groupBase K P data gids cid = .ok b := by
+  unfold groupBase baseForMask
+  exact calcBase_ok _ _ _ _ (selectSorted_mem K.toMetK P.toPrms data gids cid hK.met h hc hP.t0).1
+
+theorem firstTooClose_total {α} (P : Prms α) (hs : SepShape P) (bases : List Rat) :
+    ∃ r, firstTooClose P bases = .ok r := by
+  obtain ⟨seps, hseps⟩ := mapM_ok_of_forall (minSepFor P) bases (fun c _ => by
+    obtain ⟨v, hv, _⟩ := minSepFor_ok P hs c
+    exact ⟨v, hv⟩)
+  unfold firstTooClose
+  simp only [bind, Except.bind, pure, Except.pure, hseps]
+  exact ⟨_, rfl⟩
+
+theorem mergeLoop_total {α} [DecidableEq α] (K : Kern) (P : PPrms α) (hK : KernOK K P.basePerc) (hP : PrmsOK P)
+    (data : List (Hit α)) (sids : List Int) :
+    ∀ (fuel : Nat) (gids : List Int) (prelim : List (Int × Rat)), MOK data sids gids →
+      BasesCurrent K P data gids prelim → (prelim.map (·.1)).Perm (clusterIds gids) →
+      ∃ out, mergeLoop K P data fuel gids prelim = .ok out := by
+  intro fuel
+  induction fuel with
+  | zero =>
+    intro gids prelim _ _ _
+    rw [mergeLoop]
+    exact ⟨_, rfl⟩
+  | succ n ih =>
+    intro gids prelim hg hcur hcids
+    obtain ⟨r, hr⟩ := firstTooClose_total P.toPrms hP.sep (prelim.map (·.2))
+    rw [mergeLoop]
+    simp only [bind, Except.bind, pure, Except.pure, hr]
+    cases r with
+    | none => exact ⟨_, rfl⟩
+    | some k =>
+      obtain ⟨hk1, hk⟩ := firstTooClose_some _ _ k hr
+      rw [List.length_map] at hk
+      simp only
+      split
+      · rename_i cidK bK cidB bB hkK hkB
+        have hmem : ∀ (c : Int) (b : Rat), (c, b) ∈ prelim → c ∈ gids ∧ c ≠ -1 ∧ 0 ≤ c ∧ c ∈ sids := by
+          intro c b hcb
+          have h1 : c ∈ clusterIds gids := hcids.subset (List.mem_map.mpr ⟨(c, b), hcb, rfl⟩)
+          obtain ⟨h2, h3⟩ := (mem_clusterIds gids c).mp h1
+          have := hg.1.toOK.ge c h2
+          exact ⟨h2, h3, by omega, hg.2 c h2⟩
+        obtain ⟨_, _, hK0, _⟩ := hmem cidK bK (List.mem_of_getElem? hkK)
+        obtain ⟨hBg, hB1, hB0, hBs⟩ := hmem cidB bB (List.mem_of_getElem? hkB)
+        have hg' := relabel_ok data sids gids hg cidK cidB hK0 hB0 hBs
+        have hBc : cidB ∈ clusterIds (gids.map fun g => if g = cidK then cidB else g) := by
+          rw [mem_clusterIds]
+          refine ⟨List.mem_map.mpr ⟨cidB, hBg, ?_⟩, hB1⟩
+          split <;> rfl
+        obtain ⟨b, hb⟩ := groupBase_ok K P hK hP data _ cidB hg'.1.toOK hBc
+        obtain ⟨_, hcur', hcids'⟩ :=
+          merge_step_inv K P data gids prelim hcur hcids k hk1 hk cidK cidB bK bB b hkK hkB hb
+        rw [hb]
+        exact ih _ _ hg' hcur' hcids'
+      · exact ⟨_, rfl⟩
+
+theorem mergeCloseGroups_total {α} [DecidableEq α] (K : Kern) (P : PPrms α) (hK : KernOK K P.basePerc)
+    (hP : PrmsOK P) (data : List (Hit α)) (sids gids : List Int) (hg : MOK data sids gids) :
+    ∃ out, mergeCloseGroups K P data gids = .ok out := by
+  obtain ⟨bases, hbases⟩ := mapM_ok_of_forall (groupBase K P data gids) (clusterIds gids)
+    (fun c hc => groupBase_ok K P hK hP data gids c hg.1.toOK hc)
+  have hf2 := mapM_ok_forall₂ _ _ _ hbases
+  have hlenb := hf2.length_eq
+  have hperm : (applyPerm (K.prelimOrder bases) ((clusterIds gids).zip bases)).Perm
+      ((clusterIds gids).zip bases) := by
+    apply applyPerm_perm
+    have := hK.prelimOrder_perm bases
+    rwa [List.length_zip, hlenb, Nat.min_self]
+  have hcur : BasesCurrent K P data gids
+      (applyPerm (K.prelimOrder bases) ((clusterIds gids).zip bases)) := by
+    intro e he
+    exact forall₂_zip_mem hf2 e (hperm.subset he)
+  have hfst : ((clusterIds gids).zip bases).map (·.1) = clusterIds gids :=
+    List.map_fst_zip (le_of_eq hlenb)
+  have hcids : ((applyPerm (K.prelimOrder bases) ((clusterIds gids).zip bases)).map (·.1)).Perm
+      (clusterIds gids) := by
+    have := hperm.map (·.1)
+    rwa [hfst] at this
+  obtain ⟨res, hres⟩ := mergeLoop_total K P hK hP data sids
+    (applyPerm (K.prelimOrder bases) ((clusterIds gids).zip bases)).length gids _ hg hcur hcids
+  unfold mergeCloseGroups
+  simp only [bind, Except.bind, pure, Except.pure, hbases, hres]
+  exact ⟨_, rfl⟩
 
 theorem groupIds_total {α} [DecidableEq α] (K : Kern) (P : PPrms α) (hK : KernOK K P.basePerc) (hP : PrmsOK P)
     (data : List (Hit α)) (sids : List Int) (slices : Table) (hs : IdsExact data sids) :
     ∃ r, groupIds K P data sids slices = .ok r := by
-  sorry
+  have hg0 : GOK data sids (data.map fun _ => none) := by
+    refine ⟨by simp, ?_⟩
+    intro i m hi
+    rw [List.getElem?_map] at hi
+    obtain ⟨_, _, hv⟩ := Option.map_eq_some_iff.mp hi
+    cases hv
+  obtain ⟨g1, hg1, hG1⟩ := foldlM_ok_of_inv
+    (fun g b => groupBundle K P data sids slices b g) (GOK data sids) (bundlesOf (P.padPerc / 100) slices).1
+    (fun g b _ hg => by
+      obtain ⟨g', hg'⟩ := groupBundle_total K P data sids slices b g
+      exact ⟨g', hg', groupBundle_ok K P data sids slices hs b g g' hg hg'⟩)
+    _ hg0
+  obtain ⟨merged, hm⟩ := mergeCloseGroups_total K P hK hP data sids _ (filled_ok data sids hs g1 hG1)
+  unfold groupIds
+  simp only [bind, Except.bind, pure, Except.pure, hg1, hm]
+  exact ⟨_, rfl⟩
+
+/-! ### `find_layers` -/
+
+/-- A step of the layering loop returns, unless `ncomp_from_gmm` (called on a non-empty array with
+`ncomp_max ≥ 1`) fails, in which case the step fails with the same error. -/
+theorem layerStep_reduce {α} (K : Kern) (P : PPrms α) (hP : PrmsOK P) (data : List (Hit α)) (gids : List Int)
+    (groups : Table) (st : List (Option Int) × List Int) (ind : Nat) :
+    (∃ st', Lay.layerStep K P data gids groups st ind = .ok st') ∨
+    (∃ (hs : List Rat) (m : Nat) (minSep : Rat) (e : AmpyErr), hs ≠ [] ∧ 1 ≤ m ∧
+      ncompFromGmm K P hs m minSep = .error e ∧ Lay.layerStep K P data gids groups st ind = .error e) := by
+  obtain ⟨lids, ncomps⟩ := st
+  cases hgi : groups[ind]? with
+  | none => exact .inl ⟨_, Lay.layerStep_none K P data gids groups _ ind hgi⟩
+  | some g =>
+    unfold Lay.layerStep
+    simp only [hgi, bind, Except.bind, pure, Except.pure]
+    split
+    · exact .inl ⟨_, rfl⟩
+    · rename_i hc
+      simp only [Bool.or_eq_true, decide_eq_true_eq, not_or, not_lt] at hc
+      have hne : Lay.grpHs data (Lay.grpPos K data gids g.cid) ≠ [] := by
+        intro he
+        rw [he] at hc
+        simp at hc
+      obtain ⟨minSep, hms, _⟩ := minSepFor_ok P.toPrms hP.sep g.base
+      rw [hms]
+      simp only
+      have hm : 1 ≤ min ((Lay.grpHs data (Lay.grpPos K data gids g.cid)).eraseDups).length 3 := by
+        have := eraseDups_length_pos _ hne
+        omega
+      cases hr : ncompFromGmm K P (Lay.grpHs data (Lay.grpPos K data gids g.cid))
+          (min ((Lay.grpHs data (Lay.grpPos K data gids g.cid)).eraseDups).length 3) minSep with
+      | error e => exact .inr ⟨_, _, _, e, hne, hm, hr, rfl⟩
+      | ok r =>
+        left
+        simp only
+        split <;> exact ⟨_, rfl⟩
 
 theorem layerIds_total {α} [DecidableEq α] (K : Kern) (P : PPrms α) (hK : KernOK K P.basePerc) (hP : PrmsOK P)
     (hA3 : SelectedPopulated K P) (data : List (Hit α)) (gids : List Int) (groups : Table) :
     ∃ r, layerIds K P data gids groups = .ok r := by
-  sorry
+  obtain ⟨st, hst, _⟩ := foldlM_ok_of_inv (Lay.layerStep K P data gids groups) (fun _ => True)
+    (List.range groups.length)
+    (fun st ind _ _ => by
+      rcases layerStep_reduce K P hP data gids groups st ind with ⟨st', h⟩ | ⟨hs, m, minSep, e, h1, h2, h3, _⟩
+      · exact ⟨st', h, trivial⟩
+      · obtain ⟨r, hr⟩ := ncompFromGmm_total K P hK hP hA3 hs m minSep h1 h2
+        rw [hr] at h3
+        cases h3)
+    (data.map (fun _ => none), []) trivial
+  rw [Lay.layerIds_eq]
+  simp only [bind, Except.bind, pure, Except.pure, hst]
+  exact ⟨_, rfl⟩
+
+theorem layerIds_error_kinds {α} [DecidableEq α] (K : Kern) (P : PPrms α) (hK : KernOK K P.basePerc)
+    (hP : PrmsOK P) (data : List (Hit α)) (gids : List Int) (groups : Table) (e : AmpyErr)
+    (h : layerIds K P data gids groups = .error e) :
+    e = .ampy "Cloud base calculation got an empty array" ∨ e = .other "AssertionError" := by
+  rw [Lay.layerIds_eq] at h
+  simp only [bind, Except.bind, pure, Except.pure] at h
+  split at h
+  · rename_i e' he'
+    cases h
+    refine foldlM_error_of (Lay.layerStep K P data gids groups)
+      (fun e => e = .ampy "Cloud base calculation got an empty array" ∨ e = .other "AssertionError")
+      ?_ _ _ _ he'
+    intro st ind e hse
+    rcases layerStep_reduce K P hP data gids groups st ind with ⟨st', h⟩ | ⟨hs, m, minSep, e', h1, h2, h3, h4⟩
+    · rw [h] at hse
+      cases hse
+    · rw [h4] at hse
+      cases hse
+      exact ncompFromGmm_error_kinds K P hK hP hs m minSep h1 h2 _ h3
+  · cases h
+
+/-! ### the whole chunk -/
+
+/-- `find_slices` and `find_groups` always return on accepted input: `run` is `find_layers` on a chunk
+whose group ids respect the id invariant. -/
+theorem run_reduce {α} [DecidableEq α] (K : Kern) (P : PPrms α) (hK : KernOK K P.basePerc) (hP : PrmsOK P)
+    (checked : List (Hit α)) :
+    ∃ (c2 : Chunk α) (gids : List Int) (gr : Table), IdsExact c2.data gids ∧ c2.groups = some gr ∧
+      c2.gids = some gids ∧ run K P checked = findLayers K P c2 := by
+  unfold run
+  simp only [bind, Except.bind]
+  have hl0 : (construct P checked).layers = none := rfl
+  have hs0 : (construct P checked).slices = none := rfl
+  generalize construct P checked = c0 at hl0 hs0 ⊢
+  obtain ⟨sids, hs⟩ := sliceIds_total K P hP c0.data
+  have hse := sliceIds_exact K P c0.data P.basePerc hK sids hs
+  obtain ⟨sl, hsl⟩ := metarize_total K.toMetK P.toPrms .slices c0.layers.isSome c0.data sids hK.met
+    hse.toOK hP.t0 (by rintro ⟨h, _⟩; cases h)
+  obtain ⟨⟨gids, iso⟩, hg⟩ := groupIds_total K P hK hP c0.data sids sl hse
+  have hge := groupIds_exact K P c0.data P.basePerc hK sids sl hse gids iso hg
+  obtain ⟨gr, hgr⟩ := metarize_total K.toMetK P.toPrms .groups false c0.data gids hK.met
+    hge.toOK hP.t0 (by rintro ⟨_, h, _⟩; cases h)
+  have e1 : findSlices K P c0 = .ok { c0 with sids := some sids, slices := some sl } := by
+    unfold findSlices
+    simp only [bind, Except.bind, pure, Except.pure, hs, hsl, hs0, carryIsolated]
+  rw [e1]
+  simp only
+  have e2 : findGroups K P { c0 with sids := some sids, slices := some sl } =
+      .ok { c0 with sids := some sids, gids := some gids, slices := some (setIsolated sl iso),
+                    groups := some gr } := by
+    unfold findGroups
+    simp only [bind, Except.bind, pure, Except.pure, hl0, Option.isSome_none, Bool.false_eq_true, if_false,
+      hg, hgr]
+  rw [e2]
+  simp only
+  exact ⟨{ c0 with sids := some sids, gids := some gids, slices := some (setIsolated sl iso),
+                   groups := some gr }, gids, gr, hge, rfl, rfl, rfl⟩
+
+theorem findLayers_of_layerIds {α} [DecidableEq α] (K : Kern) (P : PPrms α) (hK : KernOK K P.basePerc)
+    (hP : PrmsOK P) (c2 : Chunk α) (gids : List Int) (gr : Table) (hg : IdsExact c2.data gids)
+    (h1 : c2.groups = some gr) (h2 : c2.gids = some gids) (lids nc : List Int)
+    (hl : layerIds K P c2.data gids gr = .ok (lids, nc)) : ∃ c, findLayers K P c2 = .ok c := by
+  have hle := layerIds_exact K P c2.data P.basePerc hK gids gr hg lids nc hl
+  obtain ⟨lay, hlay⟩ := metarize_total K.toMetK P.toPrms .layers true c2.data lids hK.met
+    hle.toOK hP.t0 (by rintro ⟨h, _⟩; cases h)
+  unfold findLayers
+  simp only [h1, h2, bind, Except.bind, pure, Except.pure, hl, hlay]
+  exact ⟨_, rfl⟩
 
 /-- No error branch of the cascade is reachable: `run` returns a chunk. -/
 theorem run_total {α} [DecidableEq α] (K : Kern) (P : PPrms α) (hK : KernOK K P.basePerc) (hP : PrmsOK P)
     (hA3 : SelectedPopulated K P) (checked : List (Hit α)) :
     ∃ c, run K P checked = .ok c := by
-  sorry
+  obtain ⟨c2, gids, gr, hg, h1, h2, heq⟩ := run_reduce K P hK hP checked
+  rw [heq]
+  obtain ⟨⟨lids, nc⟩, hl⟩ := layerIds_total K P hK hP hA3 c2.data gids gr
+  obtain ⟨c, hc⟩ := findLayers_of_layerIds K P hK hP c2 gids gr hg h1 h2 lids nc hl
+  exact ⟨c, hc⟩
 
 /-- Whatever the mixtures answer (A3 not assumed), the only way the cascade can fail on accepted input
 with in-domain parameters is the empty-component refusal of `calc_base_height` (an `AmpycloudError`) or
@@ -397,7 +800,21 @@ the bare `assert` of `ncomp_from_gmm`: never an `IndexError`/`TypeError`, never 
 theorem run_error_kinds {α} [DecidableEq α] (K : Kern) (P : PPrms α) (hK : KernOK K P.basePerc) (hP : PrmsOK P)
     (checked : List (Hit α)) (e : AmpyErr) (h : run K P checked = .error e) :
     e = .ampy "Cloud base calculation got an empty array" ∨ e = .other "AssertionError" := by
-  sorry
+  obtain ⟨c2, gids, gr, hg, h1, h2, heq⟩ := run_reduce K P hK hP checked
+  rw [heq] at h
+  cases hl : layerIds K P c2.data gids gr with
+  | error e' =>
+    have : findLayers K P c2 = .error e' := by
+      unfold findLayers
+      simp only [h1, h2, bind, Except.bind, hl]
+    rw [this] at h
+    cases h
+    exact layerIds_error_kinds K P hK hP c2.data gids gr _ hl
+  | ok r =>
+    obtain ⟨lids, nc⟩ := r
+    obtain ⟨c, hc⟩ := findLayers_of_layerIds K P hK hP c2 gids gr hg h1 h2 lids nc hl
+    rw [hc] at h
+    cases h
 
 /-- The message can be built for every level of every chunk `run` returns: `metarMsg` is a total
 function (the model has no error branch once the table exists). -/
